@@ -84,5 +84,13 @@ BagDet(t, env) ==
                                    Len(ApplyOps(SelOps([t EXCEPT !.a = 0, !.b = -1]), Den(t.skip, env))))
                   \/ SelOrdered(t, env)
 
+\* the other legal physical order: only SQL tables have one (the order of an
+\* iteration leaf's payload is data)
+SqlLeafIds(t) == {n.id : n \in {m \in Nodes(t) : m.k = "leaf" /\ KindOf(m.eng) = "sql"}}
+RevEnvFor(t, env) ==
+    [id \in DOMAIN env |-> IF id \in SqlLeafIds(t)
+                            THEN [i \in DOMAIN env[id] |-> env[id][Len(env[id]) + 1 - i]]
+                            ELSE env[id]]
+
 RevEnv(env) == [id \in DOMAIN env |-> [i \in DOMAIN env[id] |-> env[id][Len(env[id]) + 1 - i]]]
 =============================================================================
